@@ -48,6 +48,9 @@ def handle (r : RunState) (ln : Nat) (toks : List String) : RunState :=
       -- harness-level yield points (`h.*`) are not steps of the code
       if tag.startsWith "h." then r else
       let t := t.toNat!
+      match am.foreign t tag v.toNat! with
+      | some am' => { r with mach := some am', steps := r.steps + 1 }
+      | none =>
       match am.tag t with
       | none => { r with bad := some s!"line={ln} code is at hook `{tag}` value={v} but model thread {t} is not at a program point (state: {am.describe t})" }
       | some (mtag, mv) =>
